@@ -168,6 +168,10 @@ func renderFile(r *Request, f *File, deps []string) *descriptor.FileDescriptorPr
 		}
 		fd.EnumType = append(fd.EnumType, ed)
 	}
+	if f.PackageComment != nil {
+		sci.Location = append(sci.Location, &descriptor.SourceCodeInfo_Location{
+			Path: []int32{2}, Span: []int32{0, 0, 0}, LeadingComments: proto.String(*f.PackageComment)})
+	}
 	for mi, m := range f.Messages {
 		md := &descriptor.DescriptorProto{Name: proto.String(m.Name)}
 		if m.Comment != nil {
